@@ -52,6 +52,8 @@ def real_pretty(text, w=None):
         return fn(text) if w is None else fn(text, w)
     except PrettyTimeout:
         return None
+    except Exception as e:  # noqa: BLE001  (an exception is a result of its own: never JSON, never the model's text)
+        return "<prettyPrint raised %s: %s>" % (type(e).__name__, str(e)[:200])
     finally:
         signal.setitimer(signal.ITIMER_REAL, 0)
         signal.signal(signal.SIGALRM, old)
@@ -138,7 +140,12 @@ def run(run, model, proof):
             continue
         from pel.peltool import peltool
         from pel.datastream import DataStream
-        _, js = peltool.parsePEL(DataStream(data, byte_order="big", is_signed=False), pelgen.make_config(True), False)
+        try:
+            _, js = peltool.parsePEL(DataStream(data, byte_order="big", is_signed=False), pelgen.make_config(True), False)
+        except Exception as e:  # noqa: BLE001
+            run.violation("pretty:pel-output", "printing a decoded PEL raises %s: %s" % (type(e).__name__, str(e)[:120]),
+                          dict(kind="S", fn="parsePEL", input_hex=data.hex(), actual=type(e).__name__))
+            continue
         run.count("end-to-end")
         # the printed text itself is prettyPrint(json.dumps(doc, indent=4)) as modelled: dumps4 then pretty_print 34
         try:
